@@ -275,10 +275,15 @@ class _Ctx:
   def __init__(self, g, tag, pool, opidx, wk, share, sep, wkey=None):
     self.g, self.tag, self.pool, self.opidx = g, tag, pool, opidx
     self.wk, self.share, self.sep, self.wkey = wk, share, sep, wkey
+    self.ctag = None
     self.slot = 0
 
   def name(self, leaf):
     return f'{self.tag}{self.sep}{leaf}'
+
+  def cname(self, leaf):
+    """name of a constant: may use its own prefix (duplicate-name models)"""
+    return f'{self.ctag or self.tag}{self.sep}{leaf}'
 
   def fconst(self, leaf, shape, kind=None, weight=False):
     """float constant; `weight` marks the tensor that `share` may alias."""
@@ -288,12 +293,12 @@ class _Ctx:
       if list(arr.shape) == list(shape):
         if mode == 'tensor':
           return tid
-        return self.g.constant(self.name(leaf), arr, buffer=buf)
+        return self.g.constant(self.cname(leaf), arr, buffer=buf)
     key = (self.pool, self.opidx, self.slot)
     if weight and self.wkey is not None:
       key = (self.pool, int(self.wkey), 1)   # values of another op's weight
     arr = const_values(kind or self.wk, shape, key)
-    return self.g.constant(self.name(leaf), arr)
+    return self.g.constant(self.cname(leaf), arr)
 
   def iconst(self, leaf, values):
     return self.g.constant(self.name(leaf), np.asarray(values, dtype=np.int32))
@@ -643,6 +648,8 @@ def build(ir):
         share = (mode,) + src
       c = _Ctx(g, tag, pool, 1000 * sub.get('cbase', si) + i,
                op.get('wk', 'rand'), share, sep, op.get('wkey'))
+      if 'cprefix' in sub:
+        c.ctag = f"{sub['cprefix']}op{i}_{t.lower()}"
       try:
         ins = [handles[r] for r in op['in']]
       except IndexError:
